@@ -199,7 +199,14 @@ Inductive case :=
      with silence; [tail] = the octets of the reply's OPT when it is the reply's last record ([]
      otherwise) — they must be the wire form of the abstract OPT (WireOpt.enc_opt), and on the byte
      path exactly what the translated internal/wire builders produce (WireOpt.wire_opt_octets) *)
-| CaseBytes (pkt : list N) (plen : N) (tail : list N) (c : case).
+| CaseBytes (pkt : list N) (plen : N) (tail : list N) (c : case)
+  (* thorough tier, exhaustive: ALL 65 536 values of the flags word of a header-only (12-octet)
+     packet with ID [id] and the four section counts, on one listener.  [runs] are the observed
+     outcomes in flag order, run-length encoded as (how many consecutive flag words, outcome):
+     outcome 0 = silence, 1 + the 12 reply octets as a big-endian number otherwise.  The library
+     decodes a header-only packet to a message without sections whatever the counts say (the driver
+     checks that on every packet); that decode is [sweep_body]. *)
+| CaseSweep (tr : transport) (id qd an ns ar : N) (runs : list (N * N)).
 
 (* the model's two length computations agree with the library's on the observed reply, and the
    lengths the records carry agree with the name table *)
@@ -209,6 +216,40 @@ Definition lens_ok (nt : ntab) (obs : option msg) (oulen oclen : N) : bool :=
   | None => true
   end.
 Definition omsg_wf (nt : ntab) (m : option msg) : bool := match m with Some x => msg_wf nt x | None => true end.
+
+(* ---- the header sweep ---- *)
+Definition hdr_word (h : hdr) : N :=
+  (if h_qr h then 32768 else 0) + h_opcode h * 2048 + (if h_aa h then 1024 else 0) + (if h_tc h then 512 else 0)
+  + (if h_rd h then 256 else 0) + (if h_ra h then 128 else 0) + (if h_z h then 64 else 0) + (if h_ad h then 32 else 0)
+  + (if h_cd h then 16 else 0) + h_rcode h.
+Definition hdr_of_word (id w : N) : hdr :=
+  mk_hdr id (N.testbit w 15) (N.land (N.shiftr w 11) 15) (N.testbit w 10) (N.testbit w 9) (N.testbit w 8) (N.testbit w 7)
+         (N.testbit w 6) (N.testbit w 5) (N.testbit w 4) (N.land w 15).
+Definition two64 : N := 18446744073709551616.
+(* what the library makes of a header-only packet *)
+Definition sweep_body (id flags : N) : msg := mk_msg (hdr_of_word id flags) [] [] [] [].
+(* a reply as an outcome number (only a bare header fits 12 octets) and back *)
+Definition sweep_outcome (o : option msg) : N :=
+  match o with
+  | None => 0
+  | Some r => match m_q r, m_an r, m_ns r, m_ex r with
+              | [], [], [], [] => 1 + (h_id (m_hdr r) * 65536 + hdr_word (m_hdr r)) * two64
+              | _, _, _, _ => 1
+              end
+  end.
+Definition sweep_obs (v : N) : option msg :=
+  if v =? 0 then None
+  else let x := v - 1 in
+       let w := N.land (N.shiftr x 64) 65535 in
+       Some (mk_msg (hdr_of_word (N.shiftr x 80) w) (if N.land x (two64 - 1) =? 0 then [] else [mk_quest 0 0 0 0]) [] [] []).
+Fixpoint run_ok (f : N -> bool) (start : N) (n : nat) : bool :=
+  match n with O => true | S k => f start && run_ok f (start + 1) k end.
+Fixpoint sweep_ok (f : N -> N -> bool) (runs : list (N * N)) (start : N) : bool :=
+  match runs with
+  | [] => start =? 65536
+  | (n, o) :: r => run_ok (fun fl => f fl o) start (N.to_nat n) && sweep_ok f r (start + n)
+  end.
+Definition sweep_cfg : cfg := mk_cfg None 0 None.
 
 Definition theader_eqb (a b : T_Header) : bool :=
   (T_Header_ID a =? T_Header_ID b) && (T_Header_Flags a =? T_Header_Flags b) && (T_Header_QDCount a =? T_Header_QDCount b)
@@ -266,6 +307,10 @@ Fixpoint check_case (x : case) : bool :=
       omsg_eqb (option_map (transport_write tr) (edns_serve_c nt tr c q strict dn)) obs
       && lens_ok nt obs oulen oclen && omsg_wf nt dn
   | CaseRelax _ y => check_case y
+  | CaseSweep tr id qd an ns ar runs =>
+      sweep_ok (fun fl o =>
+                  sweep_outcome (serve_raw tr sweep_cfg (mk_T_Header id fl qd an ns ar) (Some (sweep_body id fl)) false None 0) =? o)
+               runs 0
   | CaseBytes pkt plen tail y =>
       match pkt with
       | [] => check_case y && tail_ok tail y && wire_octets_ok tail y
@@ -286,6 +331,8 @@ Fixpoint spec_top (rx : N) (x : case) : bool :=
   | CaseRelax _ _ => true
     (* fewer than 12 octets: no header to answer to — the statement is silent, so is the server
        (judged on the packet's length alone: the oracle does not go through the translated parser) *)
+  | CaseSweep tr id qd an ns ar runs =>
+      sweep_ok (fun fl o => spec_raw rx tr sweep_cfg (mk_T_Header id fl qd an ns ar) (Some (sweep_body id fl)) (sweep_obs o) 12) runs 0
   | CaseBytes _ plen _ y => if (0 <? plen) && (plen <? 12) then is_none (case_obs y) else spec_top rx y
   end.
 
